@@ -156,13 +156,9 @@ def _handle_ConnectionUp (event):
 def _handle_LinkEvent (event):
   # When links change, update spanning tree
 
-  (dp1,p1),(dp2,p2) = event.link.end
-  if _prev[dp1][p1] is False:
-    if _prev[dp2][p2] is False:
-      # We're disabling this link; who cares if it's up or down?
-      #log.debug("Ignoring link status for %s", event.link)
-      return
-
+  # (Even when flooding is currently disabled on both ends of this link:
+  # its ports may have become edge ports, or the link may have just become
+  # bidirectional and be needed for the tree.)
   _update_tree()
 
 
